@@ -12,13 +12,14 @@
    (under (?U) the emitted `?` is non-greedy, under (?i) two literals can overlap: both refuted).
    Factoring instances, precisely (leftmost-first semantics, positions and captures):
      y|x  with y = x t  (longer first)   => x t?    sound            (factor_prefix_longer_first)
-     x|y  with y = x t  (shorter first)  => x t?    UNSOUND, always  (alt_prefix_order_refuted: fo|foo on "foo"; on subject x t the two always differ)
+     x|y  with y = x t  (shorter first)  => x t?    UNSOUND, always  (prefix_shorter_first_refuted_all: for every x and t)
      h x|x              (longer first)   => h? x    sound            (factor_suffix_longer_first)
-     x|h x             (shorter first)  => h? x    sound when x does not start with h (proved here);
-                                                     when x starts with h and no folding is in effect it is
-                                                     sound as well but left to the certificate; under (?i)
+     x|h x             (shorter first)  => h? x    sound exactly when x is not a prefix of hx (Proofs_RegexLit:
+                                                     suffix_shorter_first_sound), which is the case whenever the
+                                                     code gets that far (else hx = xt and the prefix form fires
+                                                     first); no case folding may be in effect: under (?i)
                                                      it is unsound: (?i:aA|aaA) => (?i:a?aA) on "aaa" (suffix_factoring_under_fold_refuted). *)
-From GC Require Import Base Model_Regex Model_RegexSimplify Proofs_Regex Proofs_RegexRules Proofs_RegexWalk.
+From GC Require Import Base Model_Regex Model_RegexSimplify Proofs_Regex Proofs_RegexRules Proofs_RegexWalk Proofs_RegexLit.
 Local Open Scope nat_scope.
 
 Lemma rel_group n a a' : a ≃ a' -> RGroup n a ≃ RGroup n a'.
@@ -393,7 +394,23 @@ Proof.
   - cbn [loops_ok]. rewrite !loops_ok_cat_list. cbn [forallb loops_ok]. rewrite !loops_ok_sets. reflexivity.
 Qed.
 
-Definition cls1 (fold : bool) (r : rune) : cls := {| c_neg := false; c_fold := fold; c_items := [CI false [(r, r)]] |}.
+Lemma rel_factor_suffix_short2 (xr : list rune) (rh : rune) : xr <> [] -> firstn (length xr) (rh :: xr) <> xr ->
+  RAlt (cat_list (map RSet (map (cls1 false) xr))) (cat_list (RSet (cls1 false rh) :: map RSet (map (cls1 false) xr))) ≃
+  cat_list (RQuest true (RSet (cls1 false rh)) :: map RSet (map (cls1 false) xr)).
+Proof.
+  intros Hne Hnp. split; [|split].
+  - rewrite map_map.
+    eapply req_trans; [apply (suffix_shorter_first_sound xr rh Hnp)|].
+    apply req_sym. eapply req_trans; [apply cat_list_cons|]. apply req_refl.
+  - destruct xr as [|c cs]; [congruence|]. cbn [consumes map]. rewrite !consumes_cat_list_cons. reflexivity.
+  - cbn [loops_ok]. rewrite !loops_ok_cat_list. cbn [forallb loops_ok]. rewrite !loops_ok_sets. reflexivity.
+Qed.
+
+Fixpoint runes_of (vs : list string) : option (list rune) :=
+  match vs with
+  | [] => Some []
+  | v :: r => match rune_of v, runes_of r with Some a, Some b => Some (a :: b) | _, _ => None end
+  end.
 
 Lemma cls1_disjoint a b : N.eqb a b = false -> forall r, in_cls (cls1 false a) r && in_cls (cls1 false b) r = false.
 Proof.
@@ -416,6 +433,14 @@ Proof.
   induction vs as [|v r IH]; [reflexivity|]. cbn [map denL charsets]. unfold mk_char at 1. cbn [den].
   destruct (rune_of v) as [a|]; cbn [option_map]; [|reflexivity]. rewrite IH.
   destruct (charsets (f_i (d_fl st)) r); reflexivity.
+Qed.
+
+Lemma charsets_runes vs : forall xr, runes_of vs = Some xr -> charsets false vs = Some (map (cls1 false) xr).
+Proof.
+  induction vs as [|v r IH]; intros xr H; simpl in H.
+  - inversion H. reflexivity.
+  - cbn [charsets]. destruct (rune_of v) as [a|]; [|discriminate]. destruct (runes_of r) as [b|]; [|discriminate].
+    inversion H. rewrite (IH b eq_refl). reflexivity.
 Qed.
 
 Lemma chars_of_map x : chars_of x = map mk_char (utf8_chunks (String.length x) x).
@@ -441,14 +466,18 @@ Definition factor_ok (alt : sx) : bool :=
       let tail := trim_prefix y x in
       match utf8_chunks (String.length x) x with
       | [] => false
-      | v1 :: _ =>
+      | v1 :: vr =>
           chars_eqb cx (chars_of x) &&
           if Nat.leb (String.length tail) 4 && Nat.eqb (rune_count tail) 1 then
             swap && chars_eqb cy (chars_of x ++ [mk_char tail])
           else
             let head := trim_suffix y x in
             chars_eqb cy (mk_char head :: chars_of x) &&
-            (swap || match rune_of head, rune_of v1 with Some a, Some b => negb (N.eqb a b) | _, _ => false end)
+            (* shorter alternative first: the literal is not a prefix of the longer one (else both could match at one place) *)
+            (swap || match rune_of head, runes_of (v1 :: vr) with
+                     | Some a, Some xr => negb (list_eqb N.eqb (firstn (length xr) (a :: xr)) xr)
+                     | _, _ => false
+                     end)
       end
   | _ => false
   end.
@@ -825,7 +854,10 @@ Proof.
 Qed.
 
 Lemma factor_suffix_short_den st v va vb s hq h v1 vs xx st' : d_fl st = flags0 ->
-  match rune_of h, rune_of v1 with Some a, Some b => negb (N.eqb a b) | _, _ => false end = true ->
+  match rune_of h, runes_of (v1 :: vs) with
+  | Some a, Some xr => negb (list_eqb N.eqb (firstn (length xr) (a :: xr)) xr)
+  | _, _ => false
+  end = true ->
   den (X OpAlt v [X OpConcat va (map mk_char (v1 :: vs)); X OpConcat vb (mk_char h :: map mk_char (v1 :: vs))]) st = Some (xx, st') ->
   exists ys, denL [X OpConcat s (X OpQuestion hq [mk_char h] :: map mk_char (v1 :: vs))] st = Some (ys, st') /\ cat_list ys ≃ xx.
 Proof.
@@ -841,9 +873,12 @@ Proof.
   rewrite denL_app, denL_one, (den_question_char st hq h Hfl), Eh. cbn [option_map].
   rewrite denL_chars, Hfl. cbn [f_i flags0]. rewrite Ecs.
   eexists. split; [reflexivity|]. cbn [cat_list alt_list app].
-  destruct (charsets_nonempty _ _ _ _ Ecs) as (c & cs' & ->).
-  destruct (charsets_head _ _ _ _ Ecs) as (r1 & Er1 & ->). rewrite Er1 in Hd. apply negb_true_iff in Hd.
-  apply rel_sym, rel_factor_suffix_short. apply cls1_disjoint. exact Hd.
+  destruct (runes_of (v1 :: vs)) as [xr|] eqn:Exr; [|discriminate Hd].
+  rewrite (charsets_runes _ xr Exr) in Ecs. inversion Ecs; subst cs. apply negb_true_iff in Hd.
+  apply rel_sym, rel_factor_suffix_short2.
+  - intros E. subst xr. simpl in Exr. destruct (rune_of v1); [|discriminate]. destruct (runes_of vs); discriminate.
+  - intros E. rewrite E in Hd. assert (T : list_eqb N.eqb xr xr = true) by (apply (list_eqb_eq N.eqb N.eqb_eq); reflexivity).
+    congruence.
 Qed.
 
 (* ---------- classes, under whatever case-folding flag is in effect ---------- *)
